@@ -163,7 +163,14 @@ pub fn gen_node(prop: &str, kind: &str, profile: u8, tier: Tier, rng: &mut Rng, 
         tg.hi = (w / 2).max(2).max(tg.lo);
     }
     let extra_get_p = if profile == 0 { 0.25 } else { 0.05 };
-    let misdim_p = if required_unit(kind).is_some() && prop == "C10" && rng.chance(0.2) { 0.08 } else { 0.0 };
+    let ill = prop == "C19ill";
+    let misdim_p = if ill {
+        0.4
+    } else if required_unit(kind).is_some() && prop == "C10" && rng.chance(0.2) {
+        0.08
+    } else {
+        0.0
+    };
     let is_cpid = kind == "cpid";
     let is_freeze = kind == "freeze";
     let mut cur_cmd = (plan.get("cmd_kind"), plan.get("cmd_bits"));
@@ -239,7 +246,7 @@ pub fn gen_node(prop: &str, kind: &str, profile: u8, tier: Tier, rng: &mut Rng, 
                 let acc = value_gen(rng, scale, false, None);
                 plan.push("SS", &[t, fb(p), fb(vel), fb(acc)]);
             } else if misdim_p > 0.0 && rng.chance(misdim_p) {
-                let (rm, rs) = required_unit(kind).unwrap();
+                let (rm, rs) = required_unit(kind).unwrap_or((plan.get("um"), plan.get("us")));
                 let (mut m, mut s) = (rng.range(-3, 3), rng.range(-3, 3));
                 if (m, s) == (rm, rs) {
                     m = rm + 1;
